@@ -79,6 +79,12 @@ func AppendDecimal(b []byte, f float64, dec int) []byte {
 	if dec < 0 || 17 < dec {
 		dec = 17
 	}
+	for 0 < dec && 9e18 <= math.Abs(f)*math.Pow10(dec) {
+		dec-- // a float64 has no more than 17 significant digits, the scaled number must fit an int64
+	}
+	if 9e18 <= math.Abs(f) {
+		return AppendFloat(b, f, 17)
+	}
 	f *= math.Pow10(dec)
 
 	// correct rounding
